@@ -77,6 +77,61 @@ def exact_return(ix, cls, f):
     return 'no (value, unit) return'
 
 
+def _is_unit_entry(e):
+    """<x>.U[...] -- an entry of the unit table (an integer number of base units)"""
+    return isinstance(e, ast.Subscript) and isinstance(e.value, ast.Attribute) and e.value.attr == 'U'
+
+
+def _mentions_period(e):
+    return any((isinstance(x, ast.Name) and 'period' in x.id and 'unit' not in x.id) or (isinstance(x, ast.Attribute) and 'period' in x.attr and 'unit' not in x.attr)
+               for x in ast.walk(e))
+
+
+def check_exact_lifts(ix, rep):
+    """a duration given by the user as a float (the sampling period: 0.1 with unit s) is a *decimal*; the float holds the nearest binary
+    fraction.  Scaled to the base unit first (0.1 * 10**9 rounds to exactly 100000000.0) and lifted to a Fraction afterwards it is the
+    decimal the user wrote; Fraction(0.1) is 3602879701896397/36028797018963968, and no bound is a multiple of that.  Every Fraction(...)
+    in the library takes an exact operand (Decimal, int, unit-table entries) or a period already multiplied by its unit-table entry."""
+    n = 0
+    for mod in sorted(ix.modules.values(), key=lambda m: m.rel):
+        if '/antlr/' in mod.rel or ix.unimportable(mod):
+            continue
+        owner = {}
+        for fn in ast.walk(mod.tree):
+            if isinstance(fn, (ast.FunctionDef,)):
+                for x in ast.walk(fn):
+                    owner.setdefault(id(x), fn)
+        for c in ast.walk(mod.tree):
+            if not (isinstance(c, ast.Call) and ((isinstance(c.func, ast.Name) and c.func.id == 'Fraction') or (isinstance(c.func, ast.Attribute) and c.func.attr == 'Fraction'))):
+                continue
+            n += 1
+            rep.unit(mod.rel)
+            fn = owner.get(id(c))
+            sym = fn.name if fn is not None else '<module>'
+            slot = 'lift:%s' % ast.unparse(c)[:50]
+            args = list(c.args)
+            why = None
+            if len(args) == 2 and all(_is_unit_entry(a) or (isinstance(a, ast.Constant) and isinstance(a.value, int)) for a in args):
+                ok = 'ratio of two unit-table entries'
+            elif len(args) == 1 and isinstance(args[0], ast.Call) and isinstance(args[0].func, ast.Name) and args[0].func.id in ('Decimal', 'int'):
+                ok = 'lift of %s(...)' % args[0].func.id
+            elif len(args) == 1 and isinstance(args[0], ast.Constant) and isinstance(args[0].value, (int, str)):
+                ok = 'literal'
+            elif len(args) == 1 and isinstance(args[0], ast.BinOp) and isinstance(args[0].op, ast.Mult) and (_is_unit_entry(args[0].left) or _is_unit_entry(args[0].right)):
+                ok = 'scaled to the base unit before the lift'
+            elif len(args) == 1 and _mentions_period(args[0]):
+                ok = None
+                why = 'Fraction(%s) lifts the float as it is: a period of 0.1 (s) becomes 3602879701896397/36028797018963968, and then no bound is a whole number of ' \
+                      'periods -- every timed operator is rejected (or a horizon is off by a rounding error), while 100 ms works' % ast.unparse(args[0])
+            else:
+                raise AnalysisError('%s:%d: Fraction(%s): operand of unknown exactness' % (mod.rel, c.lineno, ', '.join(ast.unparse(a) for a in args)))
+            if why is None:
+                rep.ok('R-EXACT', mod.rel, sym, slot, ok, c.lineno)
+            else:
+                rep.fail('R-EXACT', mod.rel, sym, 'lift:period', why, c.lineno)
+    return n
+
+
 def check(ix, rep):
     # 1-3. the two transformers
     units.check_transformer(ix, rep, 'rtamt.semantics.discrete_time_interpreter', 'DiscreteTimeInterpreter', 'discrete')
@@ -193,6 +248,12 @@ def check(ix, rep):
                 normalisers[id(nf)] = nf
             n += 1
     rep.floor('pastifier/horizon handlers of timed operators', n, 14)
+    nl = check_exact_lifts(ix, rep)
+    rep.floor('Fraction(...) lifts', nl, 5)
+    # online: operators are stored under the printed name, so the name has to carry both bounds *with their units*
+    from sa.rules import nodename
+    nk = nodename.check(ix, rep, 'online-key', only_fields=('begin', 'end', 'begin_unit', 'end_unit'))
+    rep.floor('interval fields in the names of timed nodes', nk, 28)
     for nf in normalisers.values():
         # the normalising helper itself converts to the default unit: same dimension rule as the dense transformer
         units.check_transformer(ix, rep, None, None, 'dense', func=nf)
